@@ -19,6 +19,10 @@
 // 0, n/2, n-1 and the first three arguments modulo n)/neighbour lists (of the sampled vertices after AddEdge/RemoveEdge, of all vertices
 // after the other operations); at the end every graph is dumped with all rows and all lists.
 //
+// Quiet mode: a header `q<n0>`; tokens `o<g>` mark where all graphs are dumped; other tokens
+// print nothing; the observation ends with `E:` and the dump of all graphs.
+// Huge mode: a header `H<n0>`; the observation is the constant `huge` (see huge.go).
+//
 // Provenance mode: a header `p<dk><sk>,<n0>,<salt>,<a>.<b>,...` (see prov.go): the history starts
 // from graphs built in other ways than NewDense(n, nil)/NewSparse(n, nil); the observation
 // begins with `I:` and the dump of the start graphs and has no strict part.
@@ -44,8 +48,8 @@ type tok struct {
 
 func (t tok) String() string {
 	switch t.kind {
-	case 'c':
-		return fmt.Sprintf("c%d", t.g)
+	case 'c', 'o':
+		return fmt.Sprintf("%c%d", t.kind, t.g)
 	case 'v', 's':
 		s := make([]string, len(t.args))
 		for i, a := range t.args {
@@ -81,6 +85,8 @@ func parseTok(s string) tok {
 
 // header of a case: plain `<n0>`, large `L<n0>`, provenance `p<dk><sk>,<n0>,<salt>,<a>.<b>,...`
 type header struct {
+	quiet  bool // `q<n0>`: observers are called only at `o` tokens and at the end
+	huge   bool // `H<n0>`: 100..600 vertices, judged by the adjacency-matrix oracle of huge.go
 	large  bool
 	prov   bool
 	dk, sk byte
@@ -95,6 +101,12 @@ func parseCase(line string) (header, []tok) {
 	switch {
 	case strings.HasPrefix(parts[0], "L"):
 		h.large = true
+		h.n0, _ = strconv.Atoi(parts[0][1:])
+	case strings.HasPrefix(parts[0], "q"):
+		h.quiet = true
+		h.n0, _ = strconv.Atoi(parts[0][1:])
+	case strings.HasPrefix(parts[0], "H"):
+		h.huge = true
 		h.n0, _ = strconv.Atoi(parts[0][1:])
 	case strings.HasPrefix(parts[0], "p"):
 		f := strings.Split(parts[0], ",")
@@ -176,19 +188,51 @@ func scribble(a []int) {
 
 // dump prints all observers of g: n/m/degrees/IsEdge rows (bit masks, every ordered pair
 // including i = j is asked)/neighbour lists in the order returned.
-func dump(g graph.Graph) string {
-	n := g.N()
+func dump(g graph.Graph) string { return dumpPat(g, 0) }
+
+// dumpPat gives the same text with the observers called in another pattern: bit 0 N/M/Degrees
+// first, bit 1 Neighbours called twice (second result used), bit 2 vertices in descending
+// order, bit 3 every IsEdge asked twice, bit 4 Degrees called twice (second result used).
+func dumpPat(g graph.Graph, pat int) string {
+	var n, m int
+	var deg []int
+	head := func() {
+		n, m = g.N(), g.M()
+		deg = g.Degrees()
+		if pat&16 != 0 {
+			deg = g.Degrees()
+		}
+	}
+	if pat&1 != 0 {
+		head()
+	}
+	n = g.N()
 	rows := make([]int, n)
 	nb := make([]string, n)
-	for v := 0; v < n; v++ {
+	for k := 0; k < n; k++ {
+		v := k
+		if pat&4 != 0 {
+			v = n - 1 - k
+		}
 		for u := 0; u < n; u++ {
-			if g.IsEdge(v, u) {
+			e := g.IsEdge(v, u)
+			if pat&8 != 0 {
+				e = g.IsEdge(v, u)
+			}
+			if e {
 				rows[v] |= 1 << uint(u)
 			}
 		}
-		nb[v] = strings.ReplaceAll(hx.Ints(g.Neighbours(v)), ",", ".")
+		l := g.Neighbours(v)
+		if pat&2 != 0 {
+			l = g.Neighbours(v)
+		}
+		nb[v] = strings.ReplaceAll(hx.Ints(l), ",", ".")
 	}
-	return fmt.Sprintf("%d/%d/%s/%s/%s", n, g.M(), hx.Ints(g.Degrees()), hx.Ints(rows), strings.Join(nb, ","))
+	if pat&1 == 0 {
+		head()
+	}
+	return fmt.Sprintf("%d/%d/%s/%s/%s", n, m, hx.Ints(deg), hx.Ints(rows), strings.Join(nb, ","))
 }
 
 // sample lists the vertices whose IsEdge rows (and, after edge edits, neighbour lists) are
@@ -198,6 +242,11 @@ func sample(kind byte, n int, args []int) []int {
 		return nil
 	}
 	s := []int{0, n / 2, n - 1}
+	for _, v := range []int{63, 64, 65, 72, 80} {
+		if v < n {
+			s = append(s, v)
+		}
+	}
 	k := 3
 	if kind == 'e' || kind == 'x' {
 		s, k = nil, 2
@@ -265,17 +314,91 @@ func fullDump(st []graph.EditableGraph) string {
 	return strings.Join(s, ";")
 }
 
-func dumpAll(st []graph.EditableGraph) string {
+func dumpAll(st []graph.EditableGraph) string { return dumpAllPat(st, 0) }
+
+func dumpAllPat(st []graph.EditableGraph, pat int) string {
 	s := make([]string, len(st))
 	for i, g := range st {
-		s[i] = dump(g)
+		s[i] = dumpPat(g, pat+i)
 	}
 	return strings.Join(s, ";")
 }
 
+// vlistInto is vlist writing into a caller-supplied buffer (re-used across calls).
+func vlistInto(buf []int, raw []int, n int) []int {
+	r := buf[:0]
+	if n == 0 {
+		return r
+	}
+	seen := map[int]bool{}
+	for _, x := range raw {
+		x %= n
+		if !seen[x] {
+			seen[x] = true
+			r = append(r, x)
+		}
+	}
+	return r
+}
+
+// held is a slice returned by an observer, kept by the caller, with a snapshot of its content.
+type held struct {
+	what string
+	got  []int
+	snap []int
+}
+
+func hold(what string, got []int) held {
+	return held{what, got, append([]int(nil), got...)}
+}
+
+func (h held) intact() bool {
+	if len(h.got) != len(h.snap) {
+		return false
+	}
+	for i := range h.got {
+		if h.got[i] != h.snap[i] {
+			return false
+		}
+	}
+	return true
+}
+
+// holdAll calls Degrees and Neighbours (of the given vertices) on the graphs and keeps the
+// returned slices.
+func holdAll(st []graph.EditableGraph, which []int, label string, verts func(n int) []int) []held {
+	var hs []held
+	for _, i := range which {
+		g := st[i]
+		hs = append(hs, hold(fmt.Sprintf("%s[%d].Degrees()", label, i), g.Degrees()))
+		for _, v := range verts(g.N()) {
+			hs = append(hs, hold(fmt.Sprintf("%s[%d].Neighbours(%d)", label, i, v), g.Neighbours(v)))
+		}
+	}
+	return hs
+}
+
+func sameGraph(a, b graph.Graph) bool {
+	if a.N() != b.N() || a.M() != b.M() || hx.Ints(a.Degrees()) != hx.Ints(b.Degrees()) {
+		return false
+	}
+	for v := 0; v < a.N(); v++ {
+		if hx.Ints(a.Neighbours(v)) != hx.Ints(b.Neighbours(v)) {
+			return false
+		}
+	}
+	return true
+}
+
 // apply performs one token on one store; it returns the new store and whether a dense
 // AddVertex re-used spare capacity / a non-last vertex was removed.
-func apply(st []graph.EditableGraph, t tok) ([]graph.EditableGraph, bool, []int) {
+//
+// shared != nil: the argument list of AddVertex / InducedSubgraph is this caller-owned slice (the
+// same one for the dense and the sparse call, and the same backing array from token to token);
+// the caller scribbles over it after both calls.  Otherwise a fresh slice is passed and
+// scribbled over right after the call.  InducedSubgraph is called twice with the same V; the
+// two results must be equal graphs and the second one is kept.
+func apply(st []graph.EditableGraph, t tok, shared []int, viol *[]hx.OracleViolation) ([]graph.EditableGraph, bool, []int) {
 	gi := t.g % len(st)
 	g := st[gi]
 	n := g.N()
@@ -297,20 +420,35 @@ func apply(st []graph.EditableGraph, t tok) ([]graph.EditableGraph, bool, []int)
 			g.RemoveVertex(v)
 		}
 	case 'v':
-		nb := vlist(t.args, n)
+		nb := shared
+		if shared == nil {
+			nb = vlist(t.args, n)
+		}
 		if d, ok := g.(*graph.DenseGraph); ok && n > 0 && cap(d.Edges) >= (n*(n-1))/2+n {
 			interesting = true
 		}
 		g.AddVertex(nb)
 		// the argument slice belongs to the caller: overwrite it (and its spare capacity)
 		// after the call
-		scribble(nb)
+		if shared == nil {
+			scribble(nb)
+		}
 	case 's':
-		V := vlist(t.args, n)
+		V := shared
+		if shared == nil {
+			V = vlist(t.args, n)
+		}
+		first := g.InducedSubgraph(V)
 		created = g.InducedSubgraph(V)
-		scribble(V)
+		if !sameGraph(first, created) {
+			*viol = append(*viol, hx.Fail("induced-twice", "two calls of InducedSubgraph with the same V on the same graph gave different graphs (token %s)", t))
+		}
+		if shared == nil {
+			scribble(V)
+		}
 	case 'c':
 		created = g.Copy()
+	case 'o':
 	default:
 		panic("bad token")
 	}
@@ -327,12 +465,37 @@ func apply(st []graph.EditableGraph, t tok) ([]graph.EditableGraph, bool, []int)
 	return st, interesting, touched
 }
 
+// prelude leaves a past in the process before the case proper starts: graphs of both kinds are
+// built, edited, observed and dropped, so that package-level state (if any) is not fresh.
+func prelude(r *hx.Rng) {
+	for _, g := range []graph.EditableGraph{graph.NewDense(5, nil), graph.NewSparse(5, nil)} {
+		for i := 0; i < 6; i++ {
+			g.AddEdge(r.Intn(5), r.Intn(5))
+		}
+		g.AddVertex([]int{4, 0, 2})
+		h := g.InducedSubgraph([]int{5, 2, 0, 4})
+		g.RemoveVertex(1)
+		g.Neighbours(g.N() - 1)
+		h.Neighbours(0)
+		g.Degrees()
+		c := g.Copy()
+		c.RemoveVertex(0)
+		c.Neighbours(0)
+	}
+}
+
 func exec(line string) hx.Result {
 	h, toks := parseCase(line)
+	if h.huge {
+		return execHuge(h, toks)
+	}
 	large, n0 := h.large, h.n0
+	pr := hx.NewRng(uint64(len(line))*1000003 + uint64(len(toks))) // call patterns: fixed by the case
+	prelude(pr)
 	dst := []graph.EditableGraph{graph.NewDense(n0, nil)}
 	sst := []graph.EditableGraph{graph.NewSparse(n0, nil)}
 	var sb strings.Builder
+	var viol []hx.OracleViolation
 	var provBuckets []string
 	if h.prov {
 		es := cleanEdges(n0, h.raw)
@@ -345,22 +508,72 @@ func exec(line string) hx.Result {
 	interesting, nontrivial := false, false
 	kinds := map[byte]int{}
 	maxN := n0
+	argbuf := make([]int, 0, 12)
+	var window [][]held // results of observers held by the caller, by step
+	checkHeld := func(when string) {
+		for _, step := range window {
+			for _, x := range step {
+				if !x.intact() {
+					viol = append(viol, hx.Fail("result-aliasing", "the slice returned by %s changed %s: was %v, is %v", x.what, when, x.snap, x.got))
+				}
+			}
+		}
+	}
+	scribbleHeld := func(step []held) {
+		for _, x := range step {
+			for i := range x.got {
+				x.got[i] = -7
+			}
+		}
+	}
+	wrote := false
+	lastDump := ""
 	for k, t := range toks {
 		var i1, i2 bool
 		var touched []int
-		dst, i1, touched = apply(dst, t)
-		sst, i2, _ = apply(sst, t)
+		if k%2 == 1 && (t.kind == 'v' || t.kind == 's') {
+			// one caller-owned buffer for the dense and the sparse call, re-used from token to token
+			gi := t.g % len(dst)
+			argbuf = vlistInto(argbuf, t.args, dst[gi].N())
+			dst, i1, touched = apply(dst, t, argbuf, &viol)
+			sst, i2, _ = apply(sst, t, argbuf, &viol)
+			scribble(argbuf)
+		} else {
+			dst, i1, touched = apply(dst, t, nil, &viol)
+			sst, i2, _ = apply(sst, t, nil, &viol)
+		}
 		if i1 || i2 {
 			interesting = true
 		}
 		kinds[t.kind]++
-		if k > 0 || h.prov {
-			sb.WriteByte(' ')
+		// slices returned earlier must not have changed; the caller then writes into the oldest
+		// ones, which must not change any graph (the dump below is compared with the model)
+		checkHeld(fmt.Sprintf("after token %d (%s)", k, t))
+		if len(window) > 2 {
+			scribbleHeld(window[0])
+			window = window[1:]
 		}
-		if large {
-			sb.WriteString("D:" + touchedDump(dst, t, touched) + "|S:" + touchedDump(sst, t, touched))
-		} else {
-			sb.WriteString("D:" + dumpAll(dst) + "|S:" + dumpAll(sst))
+		if !h.quiet || t.kind == 'o' {
+			if wrote || h.prov {
+				sb.WriteByte(' ')
+			}
+			wrote = true
+			pat := pr.Intn(32)
+			if large {
+				sb.WriteString("D:" + touchedDump(dst, t, touched) + "|S:" + touchedDump(sst, t, touched))
+			} else {
+				lastDump = "D:" + dumpAllPat(dst, pat) + "|S:" + dumpAllPat(sst, pat)
+				sb.WriteString(lastDump)
+			}
+		}
+		if !h.quiet {
+			verts := allVertices
+			if large {
+				verts = func(n int) []int { return sample(t.kind, n, t.args) }
+			}
+			step := holdAll(dst, touched, "dense", verts)
+			step = append(step, holdAll(sst, touched, "sparse", verts)...)
+			window = append(window, step)
 		}
 		for _, g := range dst {
 			if interesting && g.M() > 0 {
@@ -371,8 +584,21 @@ func exec(line string) hx.Result {
 			}
 		}
 	}
+	checkHeld("by the end of the history")
+	for _, step := range window {
+		scribbleHeld(step)
+	}
 	if large {
 		sb.WriteString(" F:" + fullDump(dst) + "|" + fullDump(sst))
+	} else if h.quiet {
+		if wrote {
+			sb.WriteByte(' ')
+		}
+		sb.WriteString("E:D:" + dumpAll(dst) + "|S:" + dumpAll(sst))
+	} else if lastDump != "" {
+		if again := "D:" + dumpAll(dst) + "|S:" + dumpAll(sst); again != lastDump {
+			viol = append(viol, hx.Fail("returned-slice-written", "writing into the slices returned by Degrees/Neighbours changed a graph: %s -> %s", lastDump, again))
+		}
 	}
 	strict := make([]string, len(dst))
 	for i, g := range dst {
@@ -396,6 +622,9 @@ func exec(line string) hx.Result {
 		}
 		buckets = append(buckets, "mode=large", fmt.Sprintf("finalmaxdeg<=%d", bucket(maxDeg)))
 	}
+	if h.quiet {
+		buckets = append(buckets, "mode=quiet")
+	}
 	for k, c := range kinds {
 		if c > 0 {
 			buckets = append(buckets, "has:"+string(k))
@@ -405,9 +634,9 @@ func exec(line string) hx.Result {
 	if h.prov {
 		// the model starts from the abstract graph: bytes and capacity of the start value are
 		// not determined, so there is no strict part
-		return hx.Result{Obs: sb.String(), Nontrivial: nontrivial, Buckets: buckets}
+		return hx.Result{Obs: sb.String(), Nontrivial: nontrivial, Buckets: buckets, Viol: viol}
 	}
-	return hx.Result{Obs: sb.String() + " ## " + strings.Join(strict, ";"), Nontrivial: nontrivial, Buckets: buckets}
+	return hx.Result{Obs: sb.String() + " ## " + strings.Join(strict, ";"), Nontrivial: nontrivial, Buckets: buckets, Viol: viol}
 }
 
 func bucket(n int) int {
@@ -614,6 +843,11 @@ var thresholds = []int{7, 8, 9, 15, 16, 17, 31, 32, 33, 63, 64, 65}
 // subgraphs with 1..5 and with many vertices, removal of low-numbered/random/hub vertices (long
 // row compaction), AddVertex with neighbour lists at the thresholds, copies, edge edits.
 func genLarge(r *hx.Rng, n0, k, d int, viaAddVertex bool, tail int) []tok {
+	return genLargeT(r, n0, k, d, viaAddVertex, tail, thresholds, 84)
+}
+
+// genLargeT: genLarge with the list lengths of the tail's AddVertex calls and the largest n given.
+func genLargeT(r *hx.Rng, n0, k, d int, viaAddVertex bool, tail int, ths []int, capN int) []tok {
 	var toks []tok
 	add := func(t tok) { toks = append(toks, t) }
 	es := []entry{{n: n0, hub: -1}}
@@ -634,6 +868,13 @@ func genLarge(r *hx.Rng, n0, k, d int, viaAddVertex bool, tail int) []tok {
 			continue
 		}
 		add(tok{'e', 0, []int{a, b}})
+	}
+	for _, v := range []int{64, 72, 128, 256} { // rows that start words / cache lines
+		for c := 0; c < 3 && v < n0; c++ {
+			if u := r.Intn(n0); u != h && v != h {
+				add(tok{'e', 0, []int{v, u}})
+			}
+		}
 	}
 	if viaAddVertex {
 		if d > n0 {
@@ -702,10 +943,10 @@ func genLarge(r *hx.Rng, n0, k, d int, viaAddVertex bool, tail int) []tok {
 			add(tok{'r', gi, []int{w}})
 			e.remove(w)
 		case c < 65:
-			if n >= 84 {
+			if n >= capN {
 				continue
 			}
-			l := thresholds[r.Intn(len(thresholds))]
+			l := ths[r.Intn(len(ths))]
 			if l > n || r.Chance(1, 8) {
 				l = n
 			}
@@ -823,6 +1064,115 @@ func genProvCases(g *hx.Gen) {
 	g.Note(fmt.Sprintf("provenance mode: %d histories starting from NewDense with arbitrary non-zero bytes, ChromaticIndex's array, ComplementDense, Graph6Decode/Sparse6Decode results, NewSparse with unsorted repeated lists, Copy and InducedSubgraph of those, edited-down graphs", count))
 }
 
+// genHugeCases: the size dimension beyond what the extracted model can follow (see huge.go):
+// hubs and argument lists of length 127..129, 255..257, 511..513.
+func genHugeCases(g *hx.Gen) {
+	r := g.Rng
+	ths := []int{127, 128, 129, 255, 256, 257, 511, 512, 513}
+	reps := g.Pick(1, 8)
+	count := 0
+	for rep := 0; rep < reps; rep++ {
+		for i, d := range ths {
+			if !g.Thorough() && d > 300 && i%3 != 1 {
+				continue // quick: 512 only
+			}
+			n0 := d + 2 + r.Intn(12)
+			via := d > 300 || (rep+i)%3 != 0 || !g.Thorough()
+			tail := g.Pick(5, 10)
+			k := r.Range(1, 5)
+			g.Emit("H" + caseLine(n0, genLargeT(r, n0, k, d, via, tail, ths, 600)))
+			count++
+		}
+	}
+	g.Note(fmt.Sprintf("huge mode: %d histories on 130..530 vertices with hubs/lists of length 127..129, 255..257, 511..513, judged by the adjacency-matrix oracle (no model run)", count))
+}
+
+// genQuietCases: the same random histories, but the observers are called only at the `o` tokens
+// (none, few or many) and at the end: edits run back to back without any observer in between.
+func genQuietCases(g *hx.Gen) {
+	r := g.Rng
+	count := g.Pick(500, 20000)
+	for c := 0; c < count; c++ {
+		n0 := r.Intn(6)
+		toks := genHistory(r, n0, r.Range(2, 30), r.Range(3, 9))
+		every := r.Intn(6) // 0: no observation before the end
+		var out []tok
+		for i, t := range toks {
+			out = append(out, t)
+			if every > 0 && r.Intn(every) == 0 && i < len(toks)-1 {
+				out = append(out, tok{kind: 'o'})
+			}
+		}
+		g.Emit("q" + caseLine(n0, out))
+	}
+	g.Note(fmt.Sprintf("quiet mode: %d histories with the observers called only at marked places and at the end", count))
+}
+
+// genStaleCases: a graph with a stale capacity tail (non-last RemoveVertex, or AddVertex then
+// RemoveVertex) is copied / induced (whole vertex set in random order, or a part); then source
+// and new graph are edited alternately: AddVertex (into the stale tail of the source, into a
+// fresh array for the copy), edges, removals, further copies.
+func genStaleCases(g *hx.Gen) {
+	r := g.Rng
+	count := g.Pick(300, 12000)
+	for c := 0; c < count; c++ {
+		n0 := r.Range(3, 7)
+		var toks []tok
+		add := func(t tok) { toks = append(toks, t) }
+		for i := r.Range(2, 2*n0); i > 0; i-- {
+			add(tok{'e', 0, []int{r.Intn(n0), r.Intn(n0)}})
+		}
+		n := n0
+		switch r.Intn(3) {
+		case 0:
+			add(tok{'r', 0, []int{r.Intn(n - 1)}})
+			n--
+		case 1:
+			add(tok{'v', 0, r.Perm(n)[:r.Intn(n+1)]})
+			add(tok{'r', 0, []int{r.Intn(n)}})
+		default:
+			add(tok{'r', 0, []int{0}})
+			add(tok{'r', 0, []int{r.Intn(n - 1)}})
+			n -= 2
+		}
+		ns := []int{n}
+		mk := func(src int) {
+			if r.Bool() {
+				add(tok{'c', src, nil})
+				ns = append(ns, ns[src])
+			} else {
+				k := ns[src]
+				if r.Chance(1, 3) {
+					k = r.Intn(ns[src] + 1)
+				}
+				V := r.Perm(max(ns[src], 1))[:min(k, ns[src])]
+				add(tok{'s', src, V})
+				ns = append(ns, len(V))
+			}
+		}
+		mk(0)
+		for i := r.Range(4, 14); i > 0; i-- {
+			gi := i % len(ns) // alternate
+			m := ns[gi]
+			switch x := r.Intn(10); {
+			case x < 3:
+				add(tok{'v', gi, r.Perm(max(m, 1))[:min(r.Intn(m+1), m)]})
+				ns[gi]++
+			case x < 5 && m > 0:
+				add(tok{'r', gi, []int{r.Intn(m)}})
+				ns[gi]--
+			case x < 6 && len(ns) < maxStore:
+				mk(gi)
+			case m > 0 && x < 8:
+				add(tok{'e', gi, []int{r.Intn(m), r.Intn(m)}})
+			case m > 0:
+				add(tok{'x', gi, []int{r.Intn(m), r.Intn(m)}})
+			}
+		}
+		g.Emit(caseLine(n0, toks))
+	}
+}
+
 func gen(g *hx.Gen) {
 	emit := func(n0 int, toks []tok) { g.Emit(caseLine(n0, toks)) }
 	// corpus: remove a middle vertex, re-add within the stale capacity, edit copy and source
@@ -876,6 +1226,9 @@ func gen(g *hx.Gen) {
 	}
 	genLargeCases(g)
 	genProvCases(g)
+	genHugeCases(g)
+	genQuietCases(g)
+	genStaleCases(g)
 	count := g.Pick(5000, 200000)
 	for i := 0; i < count; i++ {
 		n0 := g.Rng.Intn(6)
